@@ -203,9 +203,11 @@ class Spec(object):
         lo, hi = -(1 << 31), (1 << 31) - 1
         f = lambda k: E.idx('I2R', k, REAL)
         self.gen.globals_a['I2R'] = REAL
-        self.requires(f(0).eq(0) & f(1).eq(1) & f(-1).eq(-1), 'i2r_0')
-        self.requires(self.forall(lo, hi, lambda a: f(a + 1).eq(f(a) + 1)), 'i2r_succ')
-        self.requires(self.forall(lo, hi + 1, lambda a: self.forall(lo, hi + 1, lambda b: implies(a < b, f(a) < f(b)) & implies(a.eq(b), f(a).eq(f(b))))), 'i2r_monotone')
+        # axioms about a never-written array: facts of the model, available on both sides of a call
+        ax = self.ensures if self.mode == 'call' else self.requires
+        ax(f(0).eq(0) & f(1).eq(1) & f(-1).eq(-1), 'i2r_0')
+        ax(self.forall(lo, hi, lambda a: f(a + 1).eq(f(a) + 1)), 'i2r_succ')
+        ax(self.forall(lo, hi + 1, lambda a: self.forall(lo, hi + 1, lambda b: implies(a < b, f(a) < f(b)) & implies(a.eq(b), f(a).eq(f(b))))), 'i2r_monotone')
 
     def local(self, name):
         """value of a top-level local variable of the function under verification (verify mode, exit ghosts only)"""
@@ -244,6 +246,9 @@ class NsCtx(object):
         if name in ns:
             return self.S.wrap(ns[name])
         raise AttributeError(name)
+
+    def v(self, name):
+        return self.ns[name]
 
 
 class Obligation(object):
@@ -608,7 +613,7 @@ class Generator(object):
                 for fnc in cl[0].ghosts.get(s.name, []):
                     fnc(GhostCtx(self, cl[2]))
         elif isinstance(s, Ghost):
-            if (s.name.endswith('.after') or s.name.endswith('.before')) and getattr(s, 'fname', None) == self.fn.key:
+            if (s.name.endswith('.after') or s.name.endswith('.before') or getattr(s, 'custom', False)) and getattr(s, 'fname', None) == self.fn.key:
                 for fnc in spec.ghosts.get(s.name, []):
                     fnc(GhostCtx(self, NsCtx(spec, s.ns)))
         elif isinstance(s, Comment):
@@ -899,6 +904,8 @@ class Generator(object):
         # requires
         self.out('/* ---- configuration pins (finite enumeration of a runtime parameter) */')
         for n, val in sorted(fn.pins.items()):
+            if n not in self.globals_s:
+                continue        # pinned at translation time (e.g. nullness of a pointer parameter): no storage
             ty = self.globals_s.get(n, INT)
             self.emit_assume(E.var(n, ty).eq(val), 'pin')
         self.out('/* ---- requires */')
@@ -1091,6 +1098,10 @@ class GhostCtx(object):
 
     def assume_fact(self, prop, why):
         self.gen.assume_prop(prop, why)
+
+    def havoc(self, scalars=(), arrays=()):
+        """forget the values of program variables / arrays (abstraction step; what is re-assumed afterwards must have been proved)"""
+        self.gen.havoc_names(list(scalars), list(arrays))
 
     def induction(self, lo, hi, P, name):
         """mathematical induction at one program point: P(lo);  lo <= k < hi-1 and P(k) ==> P(k+1);  hence forall k in [lo,hi): P(k),
